@@ -182,4 +182,23 @@ theorem hrun_refines (g : Nat → Nat) (ω : Oracle) (ops : List Op) (h : H) (hs
       | panic e' => rw [hv] at hrest; simp only at hrest ⊢; exact ih h hs hg hrest
 
 
+/-- separation is NECESSARY, not only sufficient: whenever two slices view a common cell of one backing array
+(a sub-slice, a capacity-clipped window, a package-level buffer handed out twice, a memoised result returned
+twice), a cell assignment through the first is visible through the second -/
+theorem overlap_is_visible (h : H) (s1 s2 : SliceRef) (i j : Nat) (v : Cell)
+    (harr : s1.arr = s2.arr) (hov : s1.off + i = s2.off + j) (hj : j < s2.len)
+    (ha : s2.arr < h.arrays.length)
+    (hb : s2.off + s2.len ≤ (h.arrays.getD s2.arr []).length) :
+    (readSlice (storeCell h s1 i v).arrays s2).getD j .nil = v := by
+  unfold readSlice storeCell writeArr
+  simp only [harr, hov]
+  have hlen : s2.off + j < (h.arrays.getD s2.arr []).length := by omega
+  have hlen' : s2.off + j < (h.arrays[s2.arr]).length := by
+    simpa [List.getD_eq_getElem?_getD, ha] using hlen
+  simp [List.getD_eq_getElem?_getD, List.getElem?_drop, hj, ha, hlen']
+
+example : (readSlice (storeCell { arrays := [[.nil, .nil, .nil]], frames := [] }
+    { arr := 0, off := 0, len := 3, cap := 3 } 1 (.bool true)).arrays { arr := 0, off := 1, len := 2, cap := 2 }).getD 0 .nil = .bool true := by
+  decide
+
 end Goframe.C02
